@@ -113,16 +113,29 @@ Section S.
 
   Definition cf_meets (f : fleaf) (v : pyval) : Prop := meets orc (fl_fld f) v.
 
+  (* a configuration object handed over as it is must itself be well-formed for the slot it goes to (ConfigWF.obj_ok);
+     histories without such objects (plain_op) need nothing, and objects the model builds from the slot's own schema
+     meet the condition (cf_reachable_x_wf) *)
   Theorem cf_reachable_wf : forall vt ops w dyn vs fs,
-    (forall f n, cf_meets f (cf_default orc f n)) -> ok_fields fleaf fs ->
+    (forall f n, cf_meets f (cf_default orc f n)) -> ok_fields fleaf (cf_validate orc) (cf_to_python orc) (cf_default orc) fl_callable fl_flag (vrun vt) fs -> objs_ok fleaf cf_meets fs ops ->
     wf_cfg fleaf cf_meets fs
       (run fleaf (cf_validate orc) (cf_to_python orc) (cf_default orc) fl_callable fl_flag (vrun vt) ops
-           (fst (build_cfg fleaf (cf_default orc) fl_callable w fs))
-           (snd (build_cfg fleaf (cf_default orc) fl_callable w fs)) dyn vs fs).
-  Proof. intros. apply reachable_wf; [exact cf_validate_sound|assumption|assumption]. Qed.
+           (fst (build_cfg fleaf (cf_validate orc) (cf_to_python orc) (cf_default orc) fl_callable fl_flag (vrun vt) w fs))
+           (snd (build_cfg fleaf (cf_validate orc) (cf_to_python orc) (cf_default orc) fl_callable fl_flag (vrun vt) w fs)) dyn vs fs).
+  Proof. intros. apply reachable_wf; [exact cf_validate_sound|assumption|assumption|assumption]. Qed.
+
+  Theorem cf_reachable_x_wf : forall vt ops w dyn vs fs,
+    (forall f n, cf_meets f (cf_default orc f n)) -> ok_fields fleaf (cf_validate orc) (cf_to_python orc) (cf_default orc) fl_callable fl_flag (vrun vt) fs ->
+    xobjs_ok fleaf cf_meets fs ops ->
+    wf_cfg fleaf cf_meets fs
+      (run_x fleaf (cf_validate orc) (cf_to_python orc) (cf_default orc) fl_callable fl_flag (vrun vt) ops
+           (fst (build_cfg fleaf (cf_validate orc) (cf_to_python orc) (cf_default orc) fl_callable fl_flag (vrun vt) w fs))
+           (snd (build_cfg fleaf (cf_validate orc) (cf_to_python orc) (cf_default orc) fl_callable fl_flag (vrun vt) w fs)) dyn vs fs).
+  Proof. intros. apply reachable_x_wf; [exact cf_validate_sound|assumption|assumption|assumption]. Qed.
 
   Theorem cf_step_wf : forall vt ps o w pre c dyn vs fs w' c' oc1,
-    (forall f n, cf_meets f (cf_default orc f n)) -> ok_fields fleaf fs -> wf_cfg fleaf cf_meets fs c ->
+    (forall f n, cf_meets f (cf_default orc f n)) -> ok_fields fleaf (cf_validate orc) (cf_to_python orc) (cf_default orc) fl_callable fl_flag (vrun vt) fs -> wf_cfg fleaf cf_meets fs c ->
+    obj_ok fleaf cf_meets fs ps o ->
     at_path fleaf (cf_validate orc) (cf_to_python orc) (cf_default orc) fl_callable fl_flag (vrun vt) ps w pre c dyn vs fs o
       = (w', c', oc1) -> wf_cfg fleaf cf_meets fs c'.
   Proof. intros vt ps o w pre c dyn vs fs w' c' oc1 Hd. apply step_wf; [exact cf_validate_sound|exact Hd]. Qed.
@@ -421,7 +434,7 @@ Section R.
      configuration of the same schema succeeds and reproduces the same values, deeply valid again *)
   Theorem cf_tree_roundtrip : forall vt dyn vs fs c,
     deep_valid fleaf cfr_validate fl_flag (vrun vt) dyn vs fs c ->
-    forall w w0 fresh, build_cfg fleaf (cf_default orc) fl_callable w fs = (w0, fresh) ->
+    forall w w0 fresh, build_cfg fleaf cfr_validate (cf_to_python orc) (cf_default orc) fl_callable fl_flag (vrun vt) w fs = (w0, fresh) ->
     exists t w' c', to_tree fleaf cf_to_basic fl_sensitive py_strlen None fs c = Ok t /\
       load_tree fleaf cfr_validate (cf_to_python orc) (cf_default orc) fl_callable fl_flag (vrun vt) t true w0 [] fresh dyn vs fs
         = (w', c', OOk) /\
@@ -437,13 +450,13 @@ Definition ex_fs : list (str * fnode) :=
   [(sa "tags", NLeaf (ex_leaf (FListT 1 false (FBytes false BHex)) (PList 0 [PBytes (hx "00ff")])));
    (sa "env", NLeaf (ex_leaf (FDictT 2 false (FStr false sopts0) (FInt false (Some 0%Z) (Some 10%Z))) (PDict 0 [(PStr (sa "a"), PInt 3)])));
    (sa "n", NLeaf (ex_leaf (FInt false (Some 0%Z) (Some 10%Z)) (PInt 3)))].
-Definition ex_c : cfg := snd (build_cfg fleaf (cf_default no_oracle) fl_callable w0 ex_fs).
+Definition ex_c : cfg := snd (build_cfg fleaf (cfr_validate no_oracle) (cf_to_python no_oracle) (cf_default no_oracle) fl_callable fl_flag (vrun []) w0 ex_fs).
 Example cf_tree_roundtrip_computed :
   let t := to_tree fleaf cf_to_basic fl_sensitive py_strlen None ex_fs ex_c in
   t = Ok (PDict 0 [(PStr (sa "tags"), PList 0 [PStr (sa "00ff")]); (PStr (sa "env"), PDict 0 [(PStr (sa "a"), PInt 3)]); (PStr (sa "n"), PInt 3)])
   /\ match t with
      | Ok tr =>
-         let '(w1, fresh) := build_cfg fleaf (cf_default no_oracle) fl_callable w0 ex_fs in
+         let '(w1, fresh) := build_cfg fleaf (cfr_validate no_oracle) (cf_to_python no_oracle) (cf_default no_oracle) fl_callable fl_flag (vrun []) w0 ex_fs in
          let '(_, c', o) := load_tree fleaf (cfr_validate no_oracle) (cf_to_python no_oracle) (cf_default no_oracle) fl_callable fl_flag
                                       (vrun []) tr true w1 [] fresh false [] ex_fs in
          o = OOk /\ same_valuesb fleaf ex_fs c' ex_c = true
